@@ -119,6 +119,11 @@ class Gen:
             return N("obj", a=[self.g_propn(nm, d - 1) for nm in names])
         return self.ref_or("obj", d, make)
 
+    def lit_obj(self, d):
+        k = self.rng.randint(0, 3)
+        names = self.rng.sample(["a", "b", "c", "id", "name", "items"], k)
+        return N("obj", a=[self.g_propn(nm, d - 1) for nm in names])
+
     def g_propn(self, nm, d):
         p = N("prop", nm, n=self.pick([0, 0, 1, 2]), a=[self.expr("schema", max(d, 0))])
         if p["n"] == 0 and self.chance(0.1):
@@ -130,7 +135,8 @@ class Gen:
 
     def g_status(self, d):
         def make():
-            return N("lit", "status", self.pick(STATUS))
+            v = self.pick(STATUS)
+            return N("lit", "status" if v.endswith("XX") else "num", v)       # a numeric code is a number literal
         return self.ref_or("status", d, make)
 
     def g_text(self, d):
@@ -170,7 +176,7 @@ class Gen:
             a = []
             n = 0
             if self.chance(0.3):
-                a.append(self.expr("obj", min(d, 1)))
+                a.append(self.lit_obj(min(d, 1)))         # transfer parameters are an object literal in the grammar
                 n |= 1
             if self.chance(0.4):
                 a.append(self.g_contentlike(d - 1))
@@ -193,7 +199,7 @@ class Gen:
                     self.seg += 1
                     segs.append(N("seg", "s%d" % self.seg))
             if self.chance(0.2):
-                return N("uri", n=1, a=segs + [self.expr("obj", min(max(d, 0), 1))])
+                return N("uri", n=1, a=segs + [self.lit_obj(min(max(d, 0), 1))])      # so are URI parameters
             return N("uri", a=segs)
         if unique:
             return make()
